@@ -19,6 +19,8 @@ for d in sorted(glob.glob('/verif/seeded/C*/*/')):
     needs = meta.get('needs_to_manifest', '').replace('|', '/').replace('\n', ' ')
     if len(needs) > 230:
         needs = needs[:227] + '...'
+    if ver.get('note'):
+        res += ' - ' + ver['note']
     rows.append((pid, letter, title, files, needs, 'yes' if confirmed else 'NO: ' + json.dumps(conf), res))
 print('| change | what was changed (file) | needs, to manifest | confirmed | /verif quick checks |')
 print('|---|---|---|---|---|')
